@@ -24,6 +24,7 @@ def run(ctx):
     ctx.each(r12d, ctx, repo)
     ctx.each(r12e, ctx, repo)
     ctx.each(r12f, ctx, repo)
+    ctx.each(r12g, ctx, repo)
 
 
 def r12a(ctx, repo):
@@ -116,6 +117,14 @@ def r12c(ctx, repo):
         # fallback = member delta with the largest magnitude
         txt = " ".join(ast.unparse(s) for s in own_nodes(fi.node) if isinstance(s, ast.Assign))
         ctx.check("argmax" in txt and "abs" in txt, "R12c", fi, r, "fallback is the member outcome farthest from baseline", "the fallback is not the member delta of largest magnitude")
+    # the empty combination contributes nothing: delta 0 exactly when no program is active (zero coverage gives the baseline)
+    from ..core import boolx as B
+
+    zero = [r for r in own_nodes(fi.node) if isinstance(r, ast.Return) and isinstance(r.value, ast.Constant) and not isinstance(r.value.value, bool)]
+    okz = len(zero) == 1 and zero[0].value.value == 0
+    if okz:
+        okz = B.equivalent(B.cond(guards_of(zero[0])), B.parse_cond("not any(%s)" % fi.params[1]))
+    ctx.check(okz, "R12c", fi, zero[0] if zero else fi.node, "the empty combination has delta 0", "compute_impact_interaction does not return 0 exactly when no program of the combination is active: the weight put on 'nobody covered' then shifts the outcome away from the baseline even at zero coverage", stmt_text="empty-combination")
     # the key is built from the sorted program names masked by the active combination
     keydef = [s for s in own_nodes(fi.node) if isinstance(s, ast.Assign) and isinstance(s.value, ast.Call) and ast.unparse(s.value.func) == "frozenset"]
     ctx.check(bool(keydef) and "_cached_progs" in ast.unparse(keydef[0].value), "R12c", fi, keydef[0] if keydef else fi.node, "lookup key built from _cached_progs order", "the lookup key is not built from the sorted program order")
@@ -177,3 +186,130 @@ def r12f(ctx, repo):
             ok = w in ("%s != 0" % den, "%s > 0" % den, "%s != 0.0" % den, "%s > 0.0" % den, "0 != %s" % den, "0 < %s" % den)
             ctx.check(ok, "R12f", fi, enclosing_stmt(c), "division by `%s` masked by `%s`" % (den, w), "`%s` divides by `%s` but is masked by `%s`, which is not a test of the denominator: where the two differ a share is left at its fill value although the denominator is non-zero, and the weights no longer have the programs' coverages as marginals" % (ast.unparse(c)[:70], den, w))
     ctx.require(n >= 1, "R12f: masked division not found in Covout.get_outcome")
+
+
+def _branch(fi, kind):
+    """body of  `if self.cov_interaction == "<kind>"`  in get_outcome"""
+    me = K.self_name(fi)
+    for s in own_nodes(fi.node):
+        if isinstance(s, ast.If) and isinstance(s.test, ast.Compare) and ast.unparse(s.test.left) == "%s.cov_interaction" % me and isinstance(s.test.comparators[0], ast.Constant) and s.test.comparators[0].value == kind and isinstance(s.test.ops[0], ast.Eq):
+            return s
+    return None
+
+
+def _assigned(body, name):
+    return [s for st in body for s in ast.walk(st) if isinstance(s, ast.Assign) and len(s.targets) == 1 and ast.unparse(s.targets[0]) == name]
+
+
+def r12g(ctx, repo):
+    from ..core import algebra as A
+
+    ctx.rule("R12g", "combination weights have the stated closed forms (polynomial normal form over the roles C = self.combinations, c = coverages): random: prod_j [C c + (1-C)(1-c)]; additive above total coverage 1: a = max(c - max(cumsum(c) - 1, 0), 0), r = (c - a)/(1 - a), weight_i = sum_i [C a]_i prod_{j!=i} [C r + (1-C)(1-r)]_j, below 1 the single-program deltas weighted by c; nested: sorted coverages, weight of the remaining set = c_(i) - c_(i-1); each dotted with the combination outcomes and added to the baseline")
+    fi = repo.func("programs", "Covout.get_outcome")
+    me = K.self_name(fi)
+    C = "%s.combinations" % me
+    OUT = "%s._combination_outcomes" % me
+    # --- random
+    br = _branch(fi, "random")
+    ctx.require(br is not None, "R12g: branch for 'random' not found in Covout.get_outcome")
+    cc = _assigned(br.body, "combination_coverage")
+    ok = len(cc) == 1 and isinstance(cc[0].value, ast.Call) and ast.unparse(cc[0].value.func) in ("np.product", "np.prod") and astq.kwarg(cc[0].value, "axis") is not None and ast.unparse(astq.kwarg(cc[0].value, "axis")) == "1"
+    if ok:
+        try:
+            ok = A.poly(cc[0].value.args[0]) == A.poly(A.parse("%s * cov + (1 - %s) * (1 - cov)" % (C, C)))
+        except A.NotPolynomial:
+            ok = False
+    ctx.check(ok, "R12g", fi, cc[0] if cc else br, "random: weights = prod_j [C c + (1-C)(1-c)]", "`%s` is not the product over programs of C*c + (1-C)*(1-c): the weights of the program combinations no longer form the distribution of independent coverages (marginals differ from the programs' coverages)" % (norm(cc[0])[:100] if cc else "the random branch"), stmt_text="random-weights")
+    # --- additive
+    ba = _branch(fi, "additive")
+    ctx.require(ba is not None, "R12g: branch for 'additive' not found in Covout.get_outcome")
+    inner = [s for s in ba.body if isinstance(s, ast.If)]
+    ctx.require(len(inner) == 1, "R12g: the total-coverage test of the additive branch was not found")
+    t = inner[0].test
+    okt = isinstance(t, ast.Compare) and len(t.ops) == 1 and isinstance(t.ops[0], ast.Gt) and ast.unparse(t.left) in ("np.sum(cov)", "sum(cov)", "cov.sum()") and ast.unparse(t.comparators[0]) in ("1", "1.0")
+    ctx.check(okt, "R12g", fi, inner[0], "additive: random mixing only when total coverage exceeds 1", "the additive branch switches to random mixing under `%s` instead of `np.sum(cov) > 1`" % ast.unparse(t), stmt_text="additive-test")
+    over, under = inner[0].body, inner[0].orelse
+    want = {
+        "additive": "np.maximum(cov - np.maximum(np.cumsum(cov) - 1, 0), 0)",
+        "remainder": "1 - additive",
+        "random": "cov - additive",
+        "additive_portion_coverage": "%s * additive" % C,
+        "net_random": "%s * random_portion + (1 - %s) * (1 - random_portion)" % (C, C),
+    }
+    for name, formula in want.items():
+        a = _assigned(over, name)
+        ok = len(a) == 1
+        if ok:
+            try:
+                ok = A.poly(a[0].value) == A.poly(A.parse(formula))
+            except A.NotPolynomial:
+                ok = False
+        ctx.check(ok, "R12g", fi, a[0] if a else inner[0], "additive: %s = %s" % (name, formula), "`%s` is not %s = %s: the additive-then-random weights no longer have the programs' coverages as marginals" % (norm(a[0])[:90] if a else name, name, formula), stmt_text="additive:%s" % name)
+    rp = _assigned(over, "random_portion")
+    ok = len(rp) == 1 and isinstance(rp[0].value, ast.Call) and ast.unparse(rp[0].value.func) == "np.divide" and [ast.unparse(x) for x in rp[0].value.args[:2]] == ["random", "remainder"]
+    ctx.check(ok, "R12g", fi, rp[0] if rp else inner[0], "additive: random_portion = random / remainder", "random_portion is not random / remainder", stmt_text="additive:random_portion")
+    # the double loop: contribution = [C a]_i * prod_{j != i} net_random_j, accumulated with +=
+    outer = [l for l in over if isinstance(l, ast.For)]
+    okl = len(outer) == 1 and isinstance(outer[0].target, ast.Name)
+    if okl:
+        i = outer[0].target.id
+        innerl = [l for l in outer[0].body if isinstance(l, ast.For)]
+        okl = len(innerl) == 1 and isinstance(innerl[0].target, ast.Name) and ast.unparse(outer[0].iter) == ast.unparse(innerl[0].iter) == "range(0, net_random.shape[1])"
+        if okl:
+            j = innerl[0].target.id
+            init = [s for s in outer[0].body if isinstance(s, ast.Assign) and ast.unparse(s.targets[0]) == "contribution"]
+            okl = len(init) == 1 and ast.unparse(init[0].value).startswith("np.ones(")
+            ifs = [s for s in innerl[0].body if isinstance(s, ast.If)]
+            okl = okl and len(ifs) == 1 and ast.unparse(ifs[0].test) in ("%s == %s" % (i, j), "%s == %s" % (j, i))
+            if okl:
+                same, diff = ifs[0].body, ifs[0].orelse
+                okl = len(same) == 1 and len(diff) == 1 and norm(same[0]) == "contribution *= additive_portion_coverage[:, %s]" % j and norm(diff[0]) == "contribution *= net_random[:, %s]" % j
+            acc = [s for s in outer[0].body if isinstance(s, ast.AugAssign) and ast.unparse(s.target) == "combination_coverage"]
+            okl = okl and len(acc) == 1 and isinstance(acc[0].op, ast.Add) and ast.unparse(acc[0].value) == "contribution"
+            z = _assigned(over, "combination_coverage")
+            okl = okl and len(z) == 1 and ast.unparse(z[0].value).startswith("np.zeros(")
+    ctx.check(okl, "R12g", fi, outer[0] if outer else inner[0], "additive: weight = sum_i [C a]_i prod_{j != i} [net random]_j", "the double loop of the additive branch is not `combination_coverage += prod_j (additive_portion_coverage[:, j] if i == j else net_random[:, j])` over all i, j starting from zeros / ones", stmt_text="additive:loops")
+    u = [s for s in under if isinstance(s, ast.AugAssign) and ast.unparse(s.target) == "outcome"]
+    oku = len(u) == 1 and isinstance(u[0].op, ast.Add)
+    if oku:
+        try:
+            oku = isinstance(u[0].value, ast.Call) and ast.unparse(u[0].value.func) in ("np.sum", "sum") and A.poly(u[0].value.args[0]) == A.poly(A.parse("cov * %s._deltas" % me))
+        except A.NotPolynomial:
+            oku = False
+    ctx.check(oku, "R12g", fi, u[0] if u else inner[0], "additive below 1: baseline + sum(c * delta)", "below total coverage 1 the additive outcome is not baseline + sum(cov * deltas)", stmt_text="additive:under")
+    # --- nested
+    bn = _branch(fi, "nested")
+    ctx.require(bn is not None, "R12g: branch for 'nested' not found in Covout.get_outcome")
+    idx = _assigned(bn.body, "idx")
+    okn = len(idx) == 1 and ast.unparse(idx[0].value) == "np.argsort(cov)"
+    loops = [l for l in bn.body if isinstance(l, ast.For)]
+    okn = okn and len(loops) == 1 and isinstance(loops[0].target, ast.Name) and ast.unparse(loops[0].iter) in ("range(0, len(cov))", "range(len(cov))")
+    if okn:
+        i = loops[0].target.id
+        st = [s for s in ast.walk(loops[0]) if isinstance(s, ast.Assign) and ast.unparse(s.targets[0]) == "combination_coverage[combination_index]"]
+        forms = set()
+        for s in st:
+            g = [(ast.unparse(t), pol) for t, pol in guards_of(s, stop=loops[0])]
+            try:
+                p = A.show(A.poly(s.value))
+            except A.NotPolynomial:
+                p = ast.unparse(s.value)
+            forms.add((tuple(g), p))
+        first = ((("%s == 0" % i, True),), "cov[idx[%s]]" % i)
+        later = ((("%s == 0" % i, False),), A.show(A.poly(A.parse("cov[idx[%s]] - cov[idx[%s - 1]]" % (i, i)))))
+        okn = forms == {first, later}
+        mask = [s for s in loops[0].body if isinstance(s, ast.Assign) and ast.unparse(s.targets[0]) == "prog_mask[idx[%s]]" % i]
+        okn = okn and len(mask) == 1 and ast.unparse(mask[0].value) == "False" and all(mask[0].lineno > s.lineno for s in st)
+        pm = _assigned(bn.body, "prog_mask")
+        okn = okn and len(pm) == 1 and "True" in ast.unparse(pm[0].value)
+    ctx.check(okn, "R12g", fi, loops[0] if loops else bn, "nested: sorted coverages, weight of the remaining set = c_(i) - c_(i-1), smallest program dropped each round", "the nested branch is not: idx = argsort(cov); weight[set of programs still active] = cov[idx[0]] for the full set, then cov[idx[i]] - cov[idx[i-1]], removing program idx[i] after each round - nested weights no longer have the coverages as marginals", stmt_text="nested")
+    # --- every branch: outcome += sum(weights * combination outcomes)
+    for b, nm in ((over, "additive"), (bn.body, "nested"), (br.body, "random")):
+        u = [s for s in b if isinstance(s, ast.AugAssign) and ast.unparse(s.target) == "outcome"]
+        ok = len(u) == 1 and isinstance(u[0].op, ast.Add) and isinstance(u[0].value, ast.Call) and ast.unparse(u[0].value.func) in ("np.sum", "sum")
+        if ok:
+            try:
+                ok = A.poly(u[0].value.args[0]) == A.poly(A.parse("combination_coverage * %s" % OUT))
+            except A.NotPolynomial:
+                ok = False
+        ctx.check(ok, "R12g", fi, u[0] if u else fi.node, "%s: outcome += sum(weights * combination outcomes)" % nm, "the %s branch does not add sum(combination_coverage * combination outcomes) to the baseline" % nm, stmt_text="dot:%s" % nm)
